@@ -4,6 +4,8 @@ import (
 	"bytes"
 	"fmt"
 	"math"
+
+	"github.com/wi1dcard/fingerproxy/pkg/verifhook"
 )
 
 // https://github.com/golang/net/blob/5a444b4f2fe893ea00f0376da46aa5376c3f3e28/http2/http2.go#L112-L119
@@ -47,6 +49,7 @@ func (f *HTTP2FingerprintingFrames) String() string {
 // TODO: add tests
 func (f *HTTP2FingerprintingFrames) Marshal(maxPriorityFrames uint) string {
 	var buf bytes.Buffer
+	verifhook.At("metadata.marshal.begin", f)
 
 	// SETTINGS frame
 	for i, s := range f.Settings {
@@ -62,7 +65,9 @@ func (f *HTTP2FingerprintingFrames) Marshal(maxPriorityFrames uint) string {
 
 	// WINDOW_UPDATE frame
 	// ‘00’ if the frame is not present
+	verifhook.At("metadata.marshal.after_settings", f)
 	buf.WriteString(fmt.Sprintf("%02d|", f.WindowUpdateIncrement))
+	verifhook.At("metadata.marshal.after_window_update", f)
 
 	// PRIORITY frame
 	if l := len(f.Priorities); uint(l) < maxPriorityFrames {
@@ -92,6 +97,7 @@ func (f *HTTP2FingerprintingFrames) Marshal(maxPriorityFrames uint) string {
 	}
 
 	// HEADERS frame
+	verifhook.At("metadata.marshal.after_priorities", f)
 	wrotePseudoHeader := false
 	for _, h := range f.Headers {
 		// filter only pseudo headers which starts with a colon
@@ -104,5 +110,6 @@ func (f *HTTP2FingerprintingFrames) Marshal(maxPriorityFrames uint) string {
 		}
 	}
 
+	verifhook.At("metadata.marshal.end", f)
 	return buf.String()
 }
